@@ -307,7 +307,7 @@ def gen_sequence(rng):
     base = dict(SEQ_BASE)
     if rng.random() < 0.4:
         base.pop(rng.choice(sorted(base)))
-    kind = rng.choice(["add-extra", "add-extra", "add-extra", "drop-extra", "add-default", "same", "extra-false-true"])
+    kind = rng.choice(["add-extra"] * 6 + ["drop-extra", "add-default", "same", "extra-false-true"])
     k = rng.choice(EXTRA_KEYS)
     if kind == "add-extra":
         steps = [base, dict(base, **{k: True})]
